@@ -128,6 +128,13 @@ fn profile_for(prop: &str) -> Profile {
             p.p_reset = 12;
             p.p_fault = 0;
         }
+        "C08" => {
+            // lazy `ite` shows in the draws of `random` in the branch not taken
+            p.p_random = 20;
+            p.p_expr = 55;
+            p.max_expr_depth = 4;
+            p.p_fault = 0;
+        }
         "C18" => {
             p.p_let = 30;
             p.p_loop = 18;
@@ -954,7 +961,9 @@ fn mutate(prog: &Prog, r: &mut Prng, style: &Style) -> (String, bool, &'static s
             }
         }
         5 => {
-            p.stmts.insert(0, GStmt::Let("a".into(), GExpr::Call((*r.pick(&["f", "rand", "Ite", "signext"])).into(), vec![GExpr::Num(1)])));
+            // unknown names, and the table's names in another letter case — at the arity of the function they resemble
+            let (f, n) = *r.pick(&[("f", 1usize), ("rand", 1), ("Ite", 1), ("signext", 1), ("Ite", 3), ("ITE", 3), ("itE", 3), ("Random", 1), ("RANDOM", 1), ("randoM", 1), ("signext", 2), ("SignExt", 2), ("SIGNEXT", 2), ("random_", 1), ("ite2", 3)]);
+            p.stmts.insert(0, GStmt::Let("a".into(), GExpr::Call(f.into(), (0..n).map(|i| GExpr::Num(2 + i as i64)).collect())));
             (plain(&p, r), true, "unknown-function")
         }
         6 => {
@@ -1802,6 +1811,7 @@ pub fn run_property(ctx: &mut Ctx) {
             suite_ops(ctx, "ops", k(60, 3000));
             suite_expr(ctx, "expr", k(1500, 60000));
             suite_text_valid(ctx, "text-valid", k(800, 40000));
+            suite_run(ctx, "run", k(500, 20000));
         }
         "C09" => {
             suite_text_enum(ctx, "text-enum", if ctx.tier == "thorough" { 4 } else { 3 });
